@@ -24,6 +24,7 @@ ids('C02', {301: 'more destructions than creations', 302: 'an element was leaked
             901: 'drop of a non-live object (double drop / drop of uninitialised slot)', 902: 'clone of a non-live object',
             903: 'comparison of a non-live object', 904: 'iteration yielded a non-live object', 905: 'borrow of a non-live object'})
 ids('C07', {482: 'cleared set not reusable', 491: 'drain: yielded elements', 492: 'drain: count'})
+ids('C01', {1102: 'entry().or_insert value', 1501: 'clone contents', 1502: 'clone != original', 811: 'contents differ from the model'})
 ids('C01', {401: 'insert: return value', 411: 'insert_key_value: return value', 421: 'checked_insert: outer Option',
             422: 'checked_insert: inner value', 431: 'get', 432: 'get_mut', 433: 'get_key_value', 434: 'contains_key',
             435: 'lookup by borrowed form disagrees with lookup by key', 436: 'write through get_mut not observed',
@@ -44,6 +45,7 @@ ids('C09 C10', {601: 'ExactSizeIterator::len() wrong', 602: 'size_hint() wrong',
 ids('C09 C10', {621: 'nth() differs from stepping', 622: 'last() differs from stepping', 623: 'count() differs from stepping', 624: 'fold()/for_each() differ from stepping', 625: 'iterator state after a provided method differs from stepping'})
 ids('C10', {612: 'container not empty after drain', 613: 'container not reusable after drain'})
 ids('C02 C10', {614: 'elements not released exactly once when a consuming iterator is dropped / excess release when forgotten'})
+ids('C07', {1502: 'clone / subset relations of a set with itself', 601: 'iterator len', 604: 'iteration count', 811: 'contents differ from the model', 206: 'capacity'})
 ids('C07', {701: 'Set::insert return', 702: 'Set::replace return', 703: 'Set::contains', 704: 'Set::get', 705: 'Set::remove return',
             706: 'Set::take return', 707: 'Set::retain predicate saw a non-live element', 708: 'Extend did not pull the source exactly once per item'})
 ids('C12 C02', {709: 'Set: stored/returned element object identity'})
@@ -161,6 +163,8 @@ fam('c17_disjoint', 'g_liar', [(1, 2), (2, 2), (3, 2), (2, 3), (3, 3)], [(4, 3),
 fam('c17_set', 'g_liar', [(1, 1), (2, 1), (1, 2)], [(2, 2), (3, 2)])   # (2,2): 8 min
 
 fam('c06_refs c06_refs_set', 'g_map', [1, 2, 3], [4])
+fam('c01u_ops', 'g_map', [4, 6, 8], [10, 12])
+fam('c07u_ops', 'g_set', [4, 6, 8], [10, 12])
 fam('c01_hist', 'g_map', [(2, 2)], [(2, 3), (3, 3), (3, 4)], unwind=lambda c: c[0] + 2)
 
 # second/third parameter W selects the rendering ({} / {:?} / {:#?}) or the iterator kind: one per obligation
@@ -198,10 +202,10 @@ PROPS = {
     'C03': dict(fams=C03F + ' c03_replace_full'),
     'C08': dict(fams='c08_union c08_intersection c08_difference c08_symdiff c08_union_fold c08_intersection_fold c08_difference_fold c08_symdiff_fold c08_sub c08_difference_ref c08_predicates'),
     'C14': dict(fams='c14_map c14_set'),
-    'C07': dict(fams='c07_insert c07_replace c07_lookup c07_remove c07_take c07_retain c07_clear c07_drain c07_extend c07_extend_ref'),
+    'C07': dict(fams='c07u_ops c07_insert c07_replace c07_lookup c07_remove c07_take c07_retain c07_clear c07_drain c07_extend c07_extend_ref'),
     'C09': dict(fams='c09_iter c09_keys c09_values c09_iter_mut c09_values_mut c09_set_iter c09_defaults c09_provided c09_set_provided'),
     'C10': dict(fams='c10_into_iter c10_into_keys c10_into_values c10_set_into_iter c10_drain c10_set_drain c10_provided c10_set_provided'),
-    'C01': dict(fams='c01_insert c01_insert_kv c01_checked_insert c01_lookup c01_index c01_remove c01_remove_entry c01_retain c01_clear c01_drain_all c01_hist '
+    'C01': dict(fams='c01_insert c01_insert_kv c01_checked_insert c01_lookup c01_index c01_remove c01_remove_entry c01_retain c01_clear c01_drain_all c01_hist c01u_ops '
                      'c03_insert c03_insert_kv c03_checked_full c03_replace_full'),   # a rejected insertion leaves exactly the previous associations
 }
 
